@@ -134,6 +134,10 @@ func c02GenHistory(r *Rng) c02History {
 	open := make([]bool, ndocs)
 	for i := 0; i < ndocs; i++ {
 		d := c02GenDoc(r, h.Alpha, h.LE)
+		if r.Fork(uint64(0x6d61726b+i)).Bool() {
+			// half of the documents start with a global of their own (something for the outline of the file on disk)
+			d = fmt.Sprintf("GC02Marker%d = 1%s", i, les[0]) + d
+		}
 		h.Init = append(h.Init, d)
 		models[i] = NewRText(d)
 		open[i] = true
@@ -387,6 +391,25 @@ func c02RunHistory(c *Ctx, srv *Server, ws *Workspace, idx int, h c02History) bo
 				// resynchronise by full replacement so later steps stay meaningful
 				version++
 				srv.DidChangeFull(uris[i], version, models[i].String())
+				continue
+			}
+			// what is analysed is the text held: a document the client has just emptied has no symbols (the file below it on disk,
+			// which starts with a global of its own, has)
+			if len(models[i].B) == 0 && step >= 0 && h.Steps[step].Doc == i && (h.Steps[step].Op == "change" || h.Steps[step].Op == "full") {
+				syms, _, err := srv.DocumentSymbol(uris[i])
+				if err != nil {
+					c.Inconclusive(fmt.Sprintf("server not answering during history %d step %d: %v", idx, step, err))
+					return false
+				}
+				c.Count("emptied_documents_outlined", 1)
+				if len(syms) > 0 {
+					kind := "by-range-edit"
+					if h.Steps[step].Op == "full" || h.Steps[step].Changes[len(h.Steps[step].Changes)-1].Range == nil {
+						kind = "by-full-text"
+					}
+					c.Report("analysis-reads-other-text|emptied-document|"+kind, fmt.Sprintf("the client emptied the document at step %d, the server's copy is empty too, but its outline still lists %d symbols (first: %s)", step, len(syms), syms[0].Name),
+						map[string]interface{}{"history": h, "step": step, "doc": i})
+				}
 			}
 		}
 		return true
